@@ -66,6 +66,12 @@ def splitGo (sep : Str) : Str → Nat → List Str
 
 def pySplit (sep s : Str) : List Str := splitGo sep s 0
 
+/-- `sep.join(l)` -/
+def joinStrs (sep : Str) : List Str → Str
+  | [] => []
+  | [x] => x
+  | x :: y :: r => x ++ sep ++ joinStrs sep (y :: r)
+
 /-- `re.split(" \\* | ", s)`: at each position the alternative `" * "` is tried first, then `" "`. -/
 def reSplitGo : Str → Nat → List Str
   | [], _ => [[]]
@@ -384,13 +390,15 @@ def dictRename (d : Dict) (old new : Str) : Dict :=
     let d' := d.filter (fun kv => kv.1 != old)
     if d'.any (fun kv => kv.1 == new) then d'.map (fun kv => if kv.1 == new then (kv.1, v) else kv) else d' ++ [(new, v)]
 
-/-- `Reaction.from_string(line, substance_keys, globals_=False)` / `Equilibrium.from_string` (token by class) -/
-def toReaction (allowed : Allowed) (token : Str) (line : Str) : Except Err Reaction :=
+/-- the part of `to_reaction` + constructor that does not involve `eval`: stoichiometry, classification, checks;
+    the parameter is kept as the stripped text of the second `;` part -/
+def toReactionCore (allowed : Allowed) (token : Str) (line : Str) : Except Err Reaction :=
   match toRaw allowed token line with
   | .error e => .error e
   | .ok raw => mkReaction raw
 
 /-! ### the parameter text: `'k'` or an expression -/
+
 
 /-- what `to_reaction` does with the (stripped) parameter text -/
 inductive ParamKind
@@ -403,6 +411,113 @@ inductive ParamKind
 /-- `if param.startswith("'") and param.endswith("'") and "'" not in param[1:-1]` -/
 def classifyParam (p : Str) : ParamKind :=
   if startsWith ['\''] p && endsWith ['\''] p && !(inner p).contains '\'' then .symbol (inner p) else .expr p
+
+/-! ### what `eval` is given: keyword parts and the parameter expression
+
+`to_reaction` first evaluates `dict(<parts[2:] joined by ";">)` (ALWAYS, even with `globals_=False`), then the parameter text
+(unless it is the quoted form or `globals_ is False`), and only then looks for the token.  `eval` itself is not modelled:
+the model recognises the texts whose evaluation cannot fail and has a known result, and answers `Err.unmodelled` for every
+other text (so a failing or side-effecting keyword part such as `checks=()` is never silently passed over). -/
+
+def isWs (c : Char) : Bool := c == ' ' || c == '\t'
+def isIdentChar (c : Char) : Bool := c.isAlpha || c == '_'
+
+/-- Python decimal integer literal: `0`, `00`… or digits without a leading zero -/
+def intLit (s : Str) : Bool :=
+  s != [] && s.all Char.isDigit && (s.all (· == '0') || s.head? != some '0')
+
+/-- Python float/int literal without underscores, with an optional sign in front: the texts `eval` maps to a number -/
+def pyNumLit (s : Str) : Bool :=
+  let body := match s with
+    | '-' :: r => r
+    | '+' :: r => r
+    | r => r
+  let mant := body.takeWhile (fun c => c != 'e' && c != 'E')
+  let rest := body.dropWhile (fun c => c != 'e' && c != 'E')
+  let ip := mant.takeWhile (· != '.')
+  let fpd := mant.dropWhile (· != '.')
+  let expOK := match rest with
+    | [] => true
+    | _ :: er =>
+      let eb := match er with
+        | '-' :: r => r
+        | '+' :: r => r
+        | r => r
+      eb != [] && eb.all Char.isDigit
+  match fpd with
+  | [] => if rest.isEmpty then intLit ip else (ip != [] && ip.all Char.isDigit && expOK)
+  | _ :: fp => ip.all Char.isDigit && fp.all Char.isDigit && (ip != [] || fp != []) && expOK
+
+/-- the keyword texts the model understands: `name='…'`, `ref='…'`, `ref=<int>` (each at most once, separated by commas,
+    blanks allowed around the pieces, no quote/backslash/newline inside the strings); the result is the `name` -/
+def parseKwItems : Nat → Str → List String → Option (Option Str) → Option (Option Str)
+  | 0, _, _, _ => none
+  | fuel + 1, s, seen, name =>
+    let s1 := s.dropWhile isWs
+    let ident := s1.takeWhile isIdentChar
+    let s2 := ((s1.dropWhile isIdentChar).dropWhile isWs)
+    let id := String.ofList ident
+    if !(id == "name" || id == "ref") || seen.contains id then none else
+    match s2 with
+    | '=' :: s3 =>
+      let s4 := s3.dropWhile isWs
+      match s4 with
+      | '\'' :: body =>
+        let str := body.takeWhile (· != '\'')
+        if str.any (fun c => c == '\\' || c == '\n') then none else
+        match body.dropWhile (· != '\'') with
+        | _ :: after =>
+          let name' := if id == "name" then some (some str) else name
+          match after.dropWhile isWs with
+          | [] => name'
+          | ',' :: more => parseKwItems fuel more (id :: seen) name'
+          | _ => none
+        | [] => none
+      | _ =>
+        let digits := s4.takeWhile Char.isDigit
+        if id == "name" || !intLit digits then none else
+        match (s4.dropWhile Char.isDigit).dropWhile isWs with
+        | [] => name
+        | ',' :: more => parseKwItems fuel more (id :: seen) name
+        | _ => none
+    | _ => none
+
+/-- `none`: not a modelled keyword text; `some n`: evaluates without error, `n` is the name it sets (if any) -/
+def parseKw (kw : Str) : Option (Option Str) :=
+  if kw.all isWs then some none else parseKwItems (kw.length + 1) kw [] (some none)
+
+/-- can the parameter text be given to `eval` with a known, failure-free result? (`'k'` is not evaluated at all) -/
+def paramEvalOK (p : Option Str) : Bool :=
+  match p with
+  | none => true
+  | some t =>
+    match classifyParam t with
+    | .symbol _ => true
+    | .expr e => e == "None".toList || pyNumLit e
+
+/-- the parameter the reaction finally holds (as text): the quoted form always, an expression only when it is evaluated
+    (`globals_` not `False`), `None` for the text `None` -/
+def finalParam (ev : Bool) (p : Option Str) : Option Str :=
+  match p with
+  | none => none
+  | some t =>
+    match classifyParam t with
+    | .symbol _ => some t
+    | .expr e => if ev && e != "None".toList then some t else none
+
+/-- **`Reaction.from_string(line, substance_keys, globals_=…)` / `Equilibrium.from_string`** (token by class).
+    `ev = false` is `globals_=False` (the parameter expression is not evaluated), `ev = true` any evaluating context.
+    Order as in `to_reaction`: keyword parts, parameter, then everything else. -/
+def toReaction (ev : Bool) (allowed : Allowed) (token : Str) (line : Str) : Except Err Reaction :=
+  let parts := pySplit Printing.partSep (rstripChars Printing.lineEnd line)
+  let kw := if parts.length > 2 then parseKw (joinStrs Printing.partSep (parts.drop 2)) else some none
+  match kw with
+  | none => .error .unmodelled
+  | some name =>
+    if ev && !paramEvalOK ((parts.drop 1).head?.map strip) then .error .unmodelled else
+    match toReactionCore allowed token line with
+    | .error e => .error e
+    | .ok r => .ok { r with param := finalParam ev r.param, name := name }
 
 /-! ### the `checks` / `dont_check` arguments of the constructor -/
 
@@ -480,11 +595,6 @@ def termStrs : Dict → Option (List Str)
     | some c, some r => some ((c ++ k) :: r)
     | _, _ => none
 
-def joinStrs (sep : Str) : List Str → Str
-  | [] => []
-  | [x] => x
-  | x :: y :: r => x ++ sep ++ joinStrs sep (y :: r)
-
 /-- `_Reaction_str` : `"{}{}%s{}%s{}{}" % around_arrow` filled with `_Reaction_parts` -/
 def reactionStr (arrow : Str) (r : Reaction) : Option Str :=
   match termStrs r.reac, termStrs r.prod, termStrs r.inactReac, termStrs r.inactProd with
@@ -537,8 +647,8 @@ def mapExcept (f : Str → Except Err Reaction) : List Str → Except Err (List 
       | .ok rs => .ok (r :: rs)
 
 /-- the `rxns` list built by `ReactionSystem.from_string(s, substances, comment_tokens=…)` (default: `Printing.commentTokens`); (constructor checks of the system not modelled) -/
-def systemFromString (commentTokens : List Str) (allowed : Allowed) (token : Str) (s : Str) : Except Err (List Reaction) :=
-  mapExcept (toReaction allowed token) (systemLines commentTokens s)
+def systemFromString (ev : Bool) (commentTokens : List Str) (allowed : Allowed) (token : Str) (s : Str) : Except Err (List Reaction) :=
+  mapExcept (toReaction ev allowed token) (systemLines commentTokens s)
 
 def mapOption (f : Reaction → Option Str) : List Reaction → Option (List Str)
   | [] => some []
@@ -669,6 +779,21 @@ def netWritten (reac prod : List Term) (k : Str) : Rat :=
 /-- the reaction as written has a net effect on some species -/
 def hasEffect (reac prod : List Term) : Bool :=
   (reac ++ prod).any (fun t => netWritten reac prod t.key != 0)
+
+/-- the decimal coefficients are such that Python's `float` arithmetic is EXACT on them, so that the exact rational
+    sums of `written` are what the doubles of the real code hold: every decimal fraction is dyadic with at most 14 binary
+    places (`.0 .5 .25 .75 .125 …`) and every total that involves a decimal is below 2^38 — all partial sums are then
+    multiples of 2^-14 below 2^38, i.e. 52-bit numbers, which doubles represent and add without rounding.
+    (Without it the code differs: `1.2 A + 1.4 A + 1.4 A -> B` sums to 3.9999999999999996 and is refused.) -/
+def floatSafe (reac prod : List Term) : Bool :=
+  [reac, prod].all fun ts =>
+    ts.all (fun t => match t.form with
+      | .dec fr => ((digitsVal fr 0).getD 0 * 2 ^ 14) % 10 ^ fr.length == 0
+      | _ => true) &&
+    ts.all fun t => [false, true].all fun i =>
+      match written i t.key ts with
+      | some c => !c.isFloat || decide (c.val < 274877906944)
+      | none => true
 
 /-- every total written coefficient is a whole number (what `check_all_integral` demands) -/
 def integralWritten (reac prod : List Term) : Bool :=
